@@ -38,14 +38,17 @@ def parseLon : String → Option (Option Lon)
 def parseTmp : String → Option (Option Tmp)
   | "-" => some none | "t" => some (some .t) | "tau" => some (some .tau) | _ => none
 
-def parseVec (tok : String) : Option (Vec Sym) :=
+def parseVec (tok0 : String) : Option (Vec Sym) :=
+  -- optional backend prefix `N.` (NumPy) / `A.` (Awkward array) / `R.` (Awkward record) / `S.` (SymPy)
+  let (be, tok) : Backend × String := match tok0.splitOn "." with
+    | ["N", r] => (.np, r) | ["A", r] => (.ak, r) | ["R", r] => (.ak, r) | ["S", r] => (.sym, r) | _ => (.obj, tok0)
   match tok.splitOn ":" with
   | [fl, az, lon, tmp, idx] => do
     let az ← parseAz az
     let lon ← parseLon lon
     let tmp ← parseTmp tmp
     let names := az.names ++ (lon.toList.map Lon.str) ++ (tmp.toList.map Tmp.str)
-    some ⟨{ mom := fl == "m", az, lon, tmp }, names.map fun n => Sym.var (n ++ idx)⟩
+    some ⟨{ be, mom := fl == "m", az, lon, tmp }, names.map fun n => Sym.var (n ++ idx)⟩
   | _ => none
 
 def parseScalar (tok : String) : Option Sym :=
@@ -80,7 +83,7 @@ def describe : Except Err (Res Sym Sym) → String
   | .ok (.truth b) => "-> " ++ Sym.str b
   | .ok (.vec v) =>
     let t := v.ty
-    s!"-> {if t.mom then "m" else "g"}{t.dim} {t.az.str} {(t.lon.map Lon.str).getD "-"} {(t.tmp.map Tmp.str).getD "-"} :: "
+    s!"-> {match t.be with | .obj => "" | .np => "N." | .ak => "A." | .sym => "S."}{if t.mom then "m" else "g"}{t.dim} {t.az.str} {(t.lon.map Lon.str).getD "-"} {(t.tmp.map Tmp.str).getD "-"} :: "
       ++ " | ".intercalate (v.c.map Sym.str)
 
 def iopOf : String → Option IOp
